@@ -419,6 +419,11 @@ type Proxy struct {
 	// WatchedResources contains the list of watched resources for the proxy, keyed by the DiscoveryRequest TypeUrl.
 	WatchedResources map[string]*WatchedResource
 
+	// lastNonceSent remembers, per TypeUrl, the nonce of the last response sent on this connection for a watch that
+	// has been deleted since (the client unsubscribed). A nonce is scoped to the stream, not to the watch: when the
+	// type is watched again the new watch continues from it. Protected by the proxy mutex.
+	lastNonceSent map[string]string
+
 	// XdsNode is the xDS node identifier
 	XdsNode *core.Node
 
@@ -1072,7 +1077,16 @@ func (node *Proxy) NewWatchedResource(typeURL string, names []string) {
 	node.Lock()
 	defer node.Unlock()
 
-	node.WatchedResources[typeURL] = &WatchedResource{TypeUrl: typeURL, ResourceNames: sets.New(names...)}
+	wr := &WatchedResource{TypeUrl: typeURL, ResourceNames: sets.New(names...)}
+	// The last nonce sent for this type on the stream stays the reference for expired-nonce detection: the new watch
+	// may not produce a response (for example SDS for a secret that does not exist yet), and a response of the watch
+	// it replaces may still be in flight when the client (re)opens the type.
+	if old := node.WatchedResources[typeURL]; old != nil {
+		wr.NonceSent = old.NonceSent
+	} else {
+		wr.NonceSent = node.lastNonceSent[typeURL]
+	}
+	node.WatchedResources[typeURL] = wr
 	// For all EDS requests that we have already responded with in the same stream let us
 	// force the response. It is important to respond to those requests for Envoy to finish
 	// warming of those resources(Clusters).
@@ -1126,6 +1140,12 @@ func (node *Proxy) DeleteWatchedResource(typeURL string) {
 	node.Lock()
 	defer node.Unlock()
 
+	if wr := node.WatchedResources[typeURL]; wr != nil && wr.NonceSent != "" {
+		if node.lastNonceSent == nil {
+			node.lastNonceSent = map[string]string{}
+		}
+		node.lastNonceSent[typeURL] = wr.NonceSent
+	}
 	delete(node.WatchedResources, typeURL)
 }
 
